@@ -284,7 +284,7 @@ PROPS["C09"] = dict(
            dict(harness="mt_argh_plain", mode="threads", quick=dict(cases=1500, shards=8, opts=dict(max_repeats=40)),
                 thorough=dict(cases=5000, shards=16, opts=dict(max_repeats=100)))],
     rule="2..16 threads, each with its own generated rule-rich configuration (checks, formats, cardinalities, argument and handler "
-         "constraints, container destinations with per-thread list separators) and its own valid or rule-breaking command line; "
+         "constraints, container destinations with per-thread list separators) and its own valid or rule-breaking command line (unknown key, or a single-value argument used twice so that the outcome depends on the cardinality bookkeeping); a third of the valid lines deliver their first words through an environment variable of the thread's own (set before the threads exist); "
          "each thread constructs its handler and evaluates the line r times (r generated) after a common start signal and a "
          "generated per-thread spin delay. Oracle: every repetition in every thread gives the verdict and destination values of "
          "the same work done alone in the same process; ThreadSanitizer reports nothing (TSan build) - the same cases also run "
